@@ -42,7 +42,10 @@ BOUNDS = {
              "signed mapping matrix (2 columns), directly constructed and arithmetic-derived Visibilities symbolic; geometry either symbolic "
              "(origin and K=2 baselines symbolic, pixel scales (0.5, 2.0); exact obligations) or concrete (3 geometries with anisotropic scales, "
              "off-centre origin, zero and repeated baselines; native cos/sin against an independent complex-exponential reference, tolerance 1e-9, "
-             "symbolic values bounded by 1000 in magnitude). InversionInterferometerMapping via aa.Inversion: (i) stand-in transformer returning an "
+             "symbolic values bounded by 1000 in magnitude). Every class case also transforms an image whose own mask has the same pattern but another "
+             "origin / pixel scale (the transformer's geometry must be used), and runs a history: transformer built from caller-owned uv and mask arrays, "
+             "transform, caller overwrites both arrays in place, transform / adjoint / matrix path again - all results must belong to the baselines and "
+             "mask of construction, preload on and off. InversionInterferometerMapping via aa.Inversion: (i) stand-in transformer returning an "
              "arbitrary symbolic complex matrix, K<=3 visibilities, <=3 parameters in 1-2 linear objects, complex data and complex positive noise "
              "(Re and Im independent) symbolic, with / without regularization; (ii) the real TransformerDFT (all masks of 1x2, K=2, two linear "
              "objects, symbolic geometry), preload on/off. Every inversion case is a two-step history: two inversions built from the SAME dataset "
@@ -754,10 +757,40 @@ def body_class(inp, H, W, K, S, preload):
         T = hx.attempt(lambda: t.transform_mapping_matrix(mapping_matrix=M))
         A["tmm.re"], A["tmm.im"] = _split(T)
         E["tmm.re"], E["tmm.im"] = ref_matrix(C, Sn, M)
-    return per_entry(A, E, ["tmm.re", "tmm.im"])
+        # (h) an image / matrix whose own mask has the same boolean pattern but another origin and pixel scale: the sum uses the
+        #     pixel centres of the transformer's real-space mask (and preload == non-preload, both compared with the same reference)
+        m_other = aa.Mask2D(mask=mask.copy(), pixel_scales=(sy * 2.0, sx * 0.5), origin=(oy + 1.0, ox - 2.5))
+        image_o = aa.Array2D(values=img.copy(), mask=m_other)
+        vis_o = hx.attempt(lambda: t.visibilities_from(image=image_o))
+        A["vis_foreign_mask.re"], A["vis_foreign_mask.im"] = _split(vis_o)
+        E["vis_foreign_mask.re"], E["vis_foreign_mask.im"] = er, ei
+        # (g) history: the caller overwrites the arrays the transformer was constructed from; every later result still belongs to
+        #     the baselines / mask of construction
+        uv_own = parr(uv).copy()
+        mask_own = mask.copy()
+        m_h = aa.Mask2D(mask=mask_own, pixel_scales=(sy, sx), origin=(oy, ox))
+        t_h = hx.attempt(lambda: aa.TransformerDFT(uv_wavelengths=uv_own, real_space_mask=m_h, preload_transform=preload))
+        if not isinstance(t_h, hx.Raised):
+            image_h = aa.Array2D(values=img.copy(), mask=m_h)
+            v_h1 = hx.attempt(lambda: t_h.visibilities_from(image=image_h))
+            A["history.vis#1.re"], A["history.vis#1.im"] = _split(v_h1)
+            E["history.vis#1.re"], E["history.vis#1.im"] = er, ei
+            uv_own[...] = np.asarray(uv_own) * 3.0 + 1000.5          # caller re-uses its buffer
+            mask_own[...] = ~mask_own
+            v_h2 = hx.attempt(lambda: t_h.visibilities_from(image=image_h))
+            A["history.vis#2.re"], A["history.vis#2.im"] = _split(v_h2)
+            E["history.vis#2.re"], E["history.vis#2.im"] = er, ei
+            im_h = hx.attempt(lambda: t_h.image_from(visibilities=va_c))
+            A["history.image#2"] = hx.attempt(lambda: im_h.native.array) if not isinstance(im_h, hx.Raised) else im_h
+            E["history.image#2"] = native_of(ea)
+            T_h = hx.attempt(lambda: t_h.transform_mapping_matrix(mapping_matrix=M))
+            A["history.tmm#2.re"], A["history.tmm#2.im"] = _split(T_h)
+            E["history.tmm#2.re"], E["history.tmm#2.im"] = ref_matrix(C, Sn, M)
+            A["history.uv_kept"], E["history.uv_kept"] = hx.attempt(lambda: np.asarray(t_h.uv_wavelengths)), np.array(uv, dtype=object)
+    return per_entry(A, E, ["tmm.re", "tmm.im", "history.tmm#2.re", "history.tmm#2.im"])
 
 
-TMM_KEYS = ["tmm.re", "tmm.im"]
+TMM_KEYS = ["tmm.re", "tmm.im", "history.tmm#2.re", "history.tmm#2.im"]
 
 
 def _known_class(inputs, preload):
